@@ -80,6 +80,7 @@ type Monitors struct {
 	// ordered deliveries whose predecessor link, when they were published, was not the newest
 	// same-key delivery of the subscription still inside its retention
 	linkMissing  map[uuid.UUID]bool
+	overtaken    map[string]string // chain (subscription/key) -> signature of its first overtake
 	LinkMismatch []LinkMis
 	seekAcked    map[uuid.UUID]bool // deliveries completed by a seek
 }
@@ -94,7 +95,7 @@ type LinkMis struct {
 func NewMonitors() *Monitors {
 	return &Monitors{pubs: map[uuid.UUID]*pubRecord{}, leases: map[uuid.UUID]*leaseRecord{}, acked: map[uuid.UUID]int64{},
 		policy: map[uuid.UUID][2]int64{}, reqDL: map[uuid.UUID]dlReq{}, revivedExpired: map[uuid.UUID]bool{}, delayAt: map[uuid.UUID]int64{}, doneAt: map[uuid.UUID]int64{}, enqFilter: map[uuid.UUID]string{}, jobRounds: map[string]map[string]bool{}, lastSeek: map[uuid.UUID]int64{}, reopened: map[uuid.UUID]bool{}, handouts: map[uuid.UUID]int{}, snaps: map[string]*snapRecord{},
-		lastPull: map[uuid.UUID]int64{}, dlDone: map[uuid.UUID]bool{}, Counts: map[string]int{}, linkMissing: map[uuid.UUID]bool{}, seekAcked: map[uuid.UUID]bool{}}
+		lastPull: map[uuid.UUID]int64{}, dlDone: map[uuid.UUID]bool{}, Counts: map[string]int{}, linkMissing: map[uuid.UUID]bool{}, seekAcked: map[uuid.UUID]bool{}, overtaken: map[string]string{}}
 }
 
 // alsoViolates: an observation made by one property's monitor that contradicts the statement of
@@ -690,6 +691,15 @@ func (m *Monitors) Observe(idx int, r *Result) {
 						// the delivery this one was linked behind was acknowledged by a seek (it is in the
 						// snapshot's acked list / before the seek time) while an older one is still outstanding
 						sig = "overtake-seek-acked-middle"
+					}
+					// once a chain (subscription, key) has been overtaken in one of the recorded ways, a delivery has
+					// been handed out — and may since have been acknowledged — ahead of an outstanding older one:
+					// what happens on that chain afterwards follows from that, and is reported under the same name
+					chain := sub.ID.String() + "/" + d.Key
+					if first, seen := m.overtaken[chain]; seen && sig == "overtake" && first != "overtake" && first != "overtake-link-missing" {
+						sig = first
+					} else if !seen {
+						m.overtaken[chain] = sig
 					}
 					m.fire("C05", sig, "ordered subscription %s delivered key %q message (delivery %s, published %d) while earlier same-key delivery %s (published %d, attempts %d) is outstanding", sub.Name, d.Key, d.ID, ns(b.PublishedAt), oid, ns(o.PublishedAt), o.Attempts)
 				}
